@@ -721,7 +721,10 @@ func xconfigs(level int) []xcfg {
 			}
 		}
 	}
+	// larger tables: the state cap cuts the exploration off, what is explored is explored completely
+	out = append(out, xcfg{Bankrolls: []int64{4, 4, 4, 4}, SB: 1, BB: 2, Limit: "no"}, xcfg{Bankrolls: []int64{9, 3, 7, 5}, Ante: 1, SB: 1, BB: 2, Limit: "no"})
 	if level >= 2 {
+		out = append(out, xcfg{Bankrolls: []int64{6, 6, 6, 6, 6}, SB: 1, BB: 2, Limit: "no"}, xcfg{Bankrolls: []int64{20, 35, 50, 15}, SB: 5, BB: 10, Limit: "no"})
 		out = append(out, xcfg{Bankrolls: []int64{9, 9}, SB: 1, BB: 2, Limit: "no", Req: 2})
 		out = append(out, xcfg{Bankrolls: []int64{9, 9}, SB: 1, BB: 2, Limit: "pot"}, xcfg{Bankrolls: []int64{8, 3, 9}, SB: 1, BB: 2, Limit: "pot"})
 	} else if os.Getenv("VERIF_PROP") == "C14" || os.Getenv("VERIF_PROP") == "C10" || os.Getenv("VERIF_PROP") == "C07" {
